@@ -6,6 +6,7 @@ import (
 	"encoding/json"
 	"errors"
 	"fmt"
+	"strconv"
 	"testing"
 
 	"go.lstv.dev/util/date"
@@ -22,6 +23,9 @@ type Case struct {
 	M    int    `json:"m,omitempty"`
 	D    int    `json:"d,omitempty"`
 	Data vkit.B `json:"data,omitempty"`
+	// Watch: the case runs while a package-level Formatter is installed that records every date the library hands to it
+	// (and then formats it like the default one); the error of a rejected body is turned into text meanwhile.
+	Watch bool `json:"recording_formatter,omitempty"`
 }
 
 var sentinel = date.New(1234, 5, 6)
@@ -37,6 +41,28 @@ func judge(c Case, w *vkit.W) {
 			w.Fail(c, "panic", vkit.PanicDetail(p))
 		}
 	}()
+	if c.Watch {
+		old := date.Formatter
+		var seen []date.Date
+		date.Formatter = func(buf []byte, d date.Date, f date.Format) ([]byte, error) {
+			seen = append(seen, d)
+			return date.DefaultFormatter(buf, d, f)
+		}
+		defer func() {
+			date.Formatter = old
+			for _, d := range seen {
+				if y, m, dd := d.Date(); !ref.ValidYMD(int64(y), int(m), dd) {
+					w.Fail(c, "non-date-handed-to-formatter", fmt.Sprintf("while %v was unmarshalled (and its error printed) the package-level Formatter was handed a value with Date() = %d, %d, %d, which is not a calendar date", []byte(c.Data), y, int(m), dd))
+					break
+				}
+			}
+		}()
+		var probe date.Date
+		if err := probe.UnmarshalBinary([]byte(c.Data)); err != nil {
+			_ = err.Error()
+			_ = fmt.Sprintf("%v %s %+v", err, err, errors.Unwrap(err))
+		}
+	}
 	switch c.Kind {
 	case "date":
 		// the date value is built without the parser: New goes through time.Date, which is exact for existing days
@@ -382,6 +408,22 @@ func TestCheck(t *testing.T) {
 	})
 
 	// Phase C5: the text parser's MaxInputLength is no input of the binary form: dates and bodies under limits 1..7, 0 and huge.
+	r.Phase("FH: every month and day byte (0..255 x 0..255) for five years as bodies while a recording Formatter is installed: the library hands only calendar dates to the caller's Formatter", func() {
+		r.Serial(func(w *vkit.W) {
+			for _, y := range []int64{2002, 2024, 0, -400, 999999999} {
+				for m := 0; m < 256; m++ {
+					for d := 0; d < 256; d++ {
+						if m > 14 && d > 33 && (m*7+d)%61 != 0 {
+							continue
+						}
+						judge(Case{Kind: "bytes", Data: vkit.B(encode(y, m, d)), Watch: true}, w)
+						w.EvalRandom(vkit.Hash64("FH", strconv.Itoa(int(y)), strconv.Itoa(m), strconv.Itoa(d)), true)
+					}
+				}
+			}
+		})
+	})
+
 	r.Phase("C5: dates and bodies while the text parser's MaxInputLength is 1, 2, 6, 7, 8, 0, MaxInt", func() {
 		old := date.MaxInputLength
 		defer func() { date.MaxInputLength = old }()
